@@ -33,7 +33,7 @@ func init() { hx.Register("c11", func() hx.Property { return &c11{} }) }
 type c11 struct{}
 
 type c11Case struct {
-	Kind  string         `json:"kind"` // corpus | tt | tt2 | tt3 | ttimp | crd | gen | imp | deep | malformed
+	Kind  string         `json:"kind"` // corpus | tt | tt2 | tt3 | tta | tta2 | ttimp | crd | gen | imp | deep | malformed
 	Chart *vChart        `json:"chart"`
 	Vals  map[string]any `json:"vals"`
 }
@@ -574,6 +574,40 @@ func (*c11) Oracle(ci, oi any) []hx.Violation {
 			vs = append(vs, hx.Violation{Sig: "C11:enabled-iff-level2",
 				What: fmt.Sprintf("nested dependency %s: enabled by the truth table = %v but rendered = %v", gc.Name, want, got)})
 		}
+	case "tta":
+		sub := c.Chart.Charts[0]
+		key := c11DepKey(c.Chart.Deps[0])
+		srcs := func(p []string) []map[string]any {
+			return []map[string]any{c.Vals, c.Chart.Values, {key: map[string]any(sub.Values)}}
+		}
+		want := c11Expect([][]string{{key, "enabled"}}, nil, srcs, nil)
+		got := rendered("top/charts/" + key + "/" + probeTemplate)
+		if want != got {
+			vs = append(vs, hx.Violation{Sig: "C11:enabled-iff-alias-level1",
+				What: fmt.Sprintf("dependency %s required as %s: enabled by the truth table (user, parent defaults, its own defaults under the alias) = %v but rendered = %v", sub.Name, key, want, got)})
+		}
+	case "tta2":
+		sub := c.Chart.Charts[0]
+		gc := sub.Charts[0]
+		k1, k2 := c11DepKey(c.Chart.Deps[0]), c11DepKey(sub.Deps[0])
+		srcs := func(p []string) []map[string]any {
+			return []map[string]any{c.Vals, c.Chart.Values, {k1: map[string]any(sub.Values)},
+				{k1: map[string]any{k2: map[string]any(gc.Values)}}}
+		}
+		want := c11Expect([][]string{{k1, k2, "enabled"}}, nil, srcs, nil)
+		got := rendered("top/charts/" + k1 + "/charts/" + k2 + "/" + probeTemplate)
+		_, inUser := lookupPath(c.Vals, []string{k1, k2, "enabled"})
+		_, inTop := lookupPath(c.Chart.Values, []string{k1, k2, "enabled"})
+		_, inSub := lookupPath(sub.Values, []string{k2, "enabled"})
+		if !want && got && !inUser && !inTop && !inSub && sub.Deps[0].Alias != "" {
+			// known finding K-C11-2: only the aliased grandchild's own values.yaml holds the boolean
+			vs = append(vs, hx.Violation{Sig: "C11:aliased-grandchild-own-default-condition-ignored",
+				What: fmt.Sprintf("%s (required as %s below %s) ships %s.enabled=false for itself and nobody overrides it: %s's templates see %s.enabled=false, yet the condition %q does not resolve and the dependency is rendered",
+					gc.Name, k2, k1, k2, k1, k2, sub.Deps[0].Condition)})
+		} else if want != got {
+			vs = append(vs, hx.Violation{Sig: "C11:enabled-iff-alias-level2",
+				What: fmt.Sprintf("nested dependency %s required as %s below %s: enabled by the truth table = %v but rendered = %v", gc.Name, k2, k1, want, got)})
+		}
 	case "tt3":
 		sub := c.Chart.Charts[0]
 		gc := sub.Charts[0]
@@ -900,6 +934,14 @@ func (*c11) Corpus() []any {
 			Deps: []vDep{{Name: "suba", Version: "*", Alias: "a1"}, {Name: "suba", Version: "*", Alias: "a2"}}},
 		Vals: tbl("a2", tbl("g1", tbl("enabled", false)), "tags", tbl("t1", true), "global", tbl("g", 7.0),
 			"a1", tbl("g1", tbl("l1", tbl("u", 5.0))))})
+	// known finding K-C11-2: an ALIASED dependency at the second level whose condition is decided only by
+	// its own values.yaml: the values the code consults hold its defaults under the original name
+	out = append(out, c11Case{Kind: "tta2", Vals: tbl(),
+		Chart: &vChart{Name: "top", Version: "1.0.0", Values: tbl(),
+			Charts: []*vChart{{Name: "suba", Version: "1.0.0", Values: tbl(),
+				Charts: []*vChart{leaf("gca", tbl("enabled", false, "z", 1.0))},
+				Deps:   []vDep{{Name: "gca", Version: "1.0.0", Alias: "g1", Condition: "g1.enabled"}}}},
+			Deps: []vDep{{Name: "suba", Version: "1.0.0", Alias: "a1"}}}})
 	// false alarm of the first version of oracle (f), kept as a witness: subc is required twice, as c1
 	// and under an alias that is also the name of an unlisted chart directory (subb); removing the
 	// import-values of subc's own requirement changes BOTH copies, also the one rendered as top/charts/subb
@@ -1064,6 +1106,7 @@ func (*c11) Exhaustive(tier string) []any {
 		}
 	}
 	out = append(out, c11ImportTable(tier)...)
+	out = append(out, c11AliasTable()...)
 	return out
 }
 
@@ -1123,6 +1166,48 @@ func c11ImportTable(tier string) []any {
 							}
 						}
 					}
+				}
+			}
+		}
+	}
+	return out
+}
+
+// c11AliasTable: conditions of ALIASED dependencies whose deciding boolean may come from the aliased
+// chart's own values.yaml (coalesced under the alias): level 1 (suba as a1, condition a1.enabled;
+// user x parent defaults x suba's own defaults) and level 2 below an alias (gca as g1 inside a1,
+// condition g1.enabled; user x top defaults x suba's defaults x gca's own defaults).
+func c11AliasTable() []any {
+	var out []any
+	for _, cu := range c11States {
+		for _, cd := range c11States {
+			for _, cs := range c11States {
+				def, usr, sdef := map[string]any{}, map[string]any{}, map[string]any{"k": 1.0}
+				put(usr, cu, "a1", "enabled")
+				put(def, cd, "a1", "enabled")
+				put(sdef, cs, "enabled")
+				out = append(out, c11Case{Kind: "tta", Vals: usr,
+					Chart: &vChart{Name: "top", Version: "1.0.0", Values: def,
+						Charts: []*vChart{{Name: "suba", Version: "1.0.0", Values: sdef}},
+						Deps:   []vDep{{Name: "suba", Version: "1.0.0", Alias: "a1", Condition: "a1.enabled"}}}})
+			}
+		}
+	}
+	for _, cu := range c11States {
+		for _, ct := range []string{"absent", "false"} {
+			for _, cs := range c11States {
+				for _, cg := range c11States {
+					def, usr, sdef, gdef := map[string]any{}, map[string]any{}, map[string]any{}, map[string]any{"z": 1.0}
+					put(usr, cu, "a1", "g1", "enabled")
+					put(def, ct, "a1", "g1", "enabled")
+					put(sdef, cs, "g1", "enabled")
+					put(gdef, cg, "enabled")
+					out = append(out, c11Case{Kind: "tta2", Vals: usr,
+						Chart: &vChart{Name: "top", Version: "1.0.0", Values: def,
+							Charts: []*vChart{{Name: "suba", Version: "1.0.0", Values: sdef,
+								Charts: []*vChart{{Name: "gca", Version: "1.0.0", Values: gdef}},
+								Deps:   []vDep{{Name: "gca", Version: "1.0.0", Alias: "g1", Condition: "g1.enabled"}}}},
+							Deps: []vDep{{Name: "suba", Version: "1.0.0", Alias: "a1"}}}})
 				}
 			}
 		}
